@@ -61,6 +61,8 @@ def dec(value):
                 import uuid
 
                 return uuid.UUID(value['__uuid__'])
+            if '__exc__' in value:
+                return ValueError(value['__exc__'])
         return {k: dec(v) for k, v in value.items()}
     if isinstance(value, list):
         return [dec(v) for v in value]
@@ -249,7 +251,16 @@ def _hook_point(proc, hook, pos):
         # (hooks fired inside the constructor run before the harness holds the process: no requests from there)
         if plan['hook'] == hook and plan['occ'] == cnt and plan['pos'] == pos:
             do = plan['do']
-            control(proc, do[0], do[1] if len(do) > 1 else None, who=f'hook:{hook}:{pos}')
+            rec = control(proc, do[0], do[1] if len(do) > 1 else None, who=f'hook:{hook}:{pos}')
+            if rec.get('_raised_exc') is not None:
+                raise rec['_raised_exc']  # a hook override would not catch what the control call raises
+    listener = w.extra.get('hook_listener')
+    if listener is not None and pid in w.extra.get('constructed', ()):
+        listener(proc, hook, pos)
+    always = getattr(proc, 'PROGRAM', {}).get('raise_in_hook')
+    if always is not None and always[0] == hook and always[1] == pos:
+        # a class whose hook override always fails (C17): part of the program, not an injected fault
+        raise InjectedFault(f'{hook}:{pos}:always')
     f = w.fault
     if f is not None and f['hook'] == hook and f['occ'] == cnt and f['pos'] == pos and f.get('pid', pid) == pid:
         if w.fault_fired is None:
@@ -325,6 +336,8 @@ class ProgBase(HookMixin, ContextMixin, Process):
                 self._t('out', idx, port=item[1], value=item[2], ok=False, err=type(exc).__name__, outputs=copy.deepcopy(self.outputs) if before is not None else None, unchanged=(before == self.outputs) if before is not None else None)
                 if self.PROGRAM.get('out_errors_propagate'):
                     raise
+        elif kind == 'out_input':
+            self.out(item[1], self.inputs[item[2]])
         elif kind == 'ctx':
             self.ctx[item[1]] = dec(item[2])
         elif kind == 'ctxinc':
@@ -462,6 +475,24 @@ class ProgBase(HookMixin, ContextMixin, Process):
             self._t('exit', idx, outcome=outcome)
 
 
+class CodecProg(ProgBase):
+    """A process class with a non-identity codec for its inputs and outputs (encode_input_args / decode_input_args)."""
+
+    def encode_input_args(self, inputs):
+        return {'__encoded__': copy.deepcopy(plain_mapping(inputs))}
+
+    def decode_input_args(self, encoded):
+        return copy.deepcopy(encoded['__encoded__'])
+
+
+def plain_mapping(value):
+    from collections.abc import Mapping
+
+    if isinstance(value, Mapping):
+        return {k: plain_mapping(v) for k, v in value.items()}
+    return value
+
+
 def _make_step(idx, is_async):
     name = step_name(idx)
     if is_async:
@@ -493,7 +524,7 @@ def make_class(program, base=None):
     namespace = {'PROGRAM': program, '__module__': gen_classes.__name__}
     for idx, step in enumerate(steps):
         namespace[step_name(idx)] = _make_step(idx, bool(step.get('async')))
-    cls = type(name, (base or ProgBase,), namespace)
+    cls = type(name, (base or (CodecProg if program.get('codec') else ProgBase),), namespace)
     setattr(gen_classes, name, cls)
     _CLASS_COUNT += 1
     return cls
